@@ -1,13 +1,15 @@
 import Fpdec.Gen.Sites
 import Fpdec.Model.Pinned
 
-/-! Site ties for C14: the flavour skeleton of each anchor file, as regenerated from /repo on this run,
-equals the skeleton the model was written against. -/
+/-! Site ties for C14 (written by tools/mksites.py): the flavour skeleton of every source file the property's operations
+execute, as regenerated from /repo on this run, equals the skeleton the model was written against. -/
 
 namespace Fpdec.Props.C14
 
+theorem tie_sites_fpdec_core_src_lib : Gen.sites_fpdec_core_src_lib = Pinned.sites_fpdec_core_src_lib := by decide +kernel
+theorem tie_sites_fpdec_core_src_powers_of_ten : Gen.sites_fpdec_core_src_powers_of_ten = Pinned.sites_fpdec_core_src_powers_of_ten := by decide +kernel
+theorem tie_sites_src_lib : Gen.sites_src_lib = Pinned.sites_src_lib := by decide +kernel
 theorem tie_sites_src_from_int : Gen.sites_src_from_int = Pinned.sites_src_from_int := by decide +kernel
 theorem tie_sites_src_into_int : Gen.sites_src_into_int = Pinned.sites_src_into_int := by decide +kernel
-theorem tie_sites_fpdec_core_src_powers_of_ten : Gen.sites_fpdec_core_src_powers_of_ten = Pinned.sites_fpdec_core_src_powers_of_ten := by decide +kernel
 
 end Fpdec.Props.C14
